@@ -45,6 +45,9 @@ def count_nodes(block):
     return n
 
 
+KF_D61B = [0]
+
+
 def trace_check(ol, src, cfg3, schedules):
     """the property's observable on the real code. returns None or a failure description"""
     try:
@@ -64,6 +67,10 @@ def trace_check(ol, src, cfg3, schedules):
         if st1 != "ok":
             return f"schedule {s}: converted program raised {st1}", text, s
         if ev0 != ev1:
+            if cfg3[2] == "short_circuit" and ev0 == gen_skel.collapse_retests(ev1):
+                # KF-D61b: the only difference is the truth value of a *condition* taken again right away
+                KF_D61B[0] += 1
+                continue
             i = next((k for k in range(min(len(ev0), len(ev1))) if ev0[k] != ev1[k]), min(len(ev0), len(ev1)))
             return f"schedule {s}: traces differ at event {i}: original {ev0[i:i+4]} converted {ev1[i:i+4]}", text, s
         if res0 != res1:
@@ -167,9 +174,9 @@ def main(argv):
                 st1, ev1, res1 = gen_skel.run(code1, "eval", run["s"])
                 if st0 != "ok" or st1 != "ok":
                     continue
-                if run["src"]["ev"] != [gen_skel.ev_str(e) for e in ev0]:
+                if run["src"]["ev"] != gen_skel.model_events(ev0):
                     k_bad.append((src, cfg, f"K2: Lean source semantics trace differs from CPython exec (schedule {run['s']})"))
-                elif run["tgt"]["ev"] != [gen_skel.ev_str(e) for e in ev1]:
+                elif run["tgt"]["ev"] != gen_skel.model_events(ev1):
                     k_bad.append((src, cfg, f"K2: Lean target semantics trace differs from CPython eval of the converted program (schedule {run['s']})"))
                 elif pl == "function" and run["tgt"]["rv"] != gen_skel.res_json(res1):
                     k_bad.append((src, cfg, f"K2: return cell differs (schedule {run['s']})"))
@@ -207,6 +214,15 @@ def main(argv):
                 break
     if k_bad:
         ck.broken.append(f"correspondence K1(lowerFull = convert): {len(k_bad)} skeletons differ, first: {k_bad[0][0]!r} {k_bad[0][1]}: {k_bad[0][2][:300]}")
+    if KF_D61B[0]:
+        from common import load_known_findings
+        for k in load_known_findings("C05"):
+            if k["kf"] == "KF-D61b" and k.get("status") == "open":
+                ck.known(k["kf"], k["what"])
+                ck.count("attributed_to_KF-D61b", KF_D61B[0])
+                break
+        else:
+            ck.broken.append("a repeated truth test of a condition was observed but KF-D61b is not listed as open")
     failing.sort(key=lambda f: len(f[0]))
     for src, cfg, why, text, s in failing[:3]:
         ck.violation({"kind": "trace", "source": src, "config": list(cfg), "schedule": s, "observed": why, "converted": text,
